@@ -42,7 +42,7 @@ def main():
             res["error"] = o[-2000:]
             return res
         # 2. baseline
-        rc, o = sh("cargo nextest run --workspace --no-fail-fast --offline --test-threads 8",
+        rc, o = sh("cargo nextest run --workspace --no-fail-fast --offline --test-threads 8 --retries 2",
                    cwd=wt, env=env, timeout=5400)
         open(f"{out}/confirm_baseline.log", "w").write(o)
         b = json.load(open("/root/.vp/BASELINE.json"))
@@ -61,6 +61,9 @@ def main():
             res["error"] = o[-3000:]
             return res
         # 3. demonstration
+        if "--no-demo" in sys.argv:
+            res["confirmed_tests_only"] = (res["patch_applies"] and res["compiles"] and not bad)
+            return res
         meta = json.load(open(f"{out}/meta.json"))
         demo_cmd = meta.get("demo_cmd_confirm") or meta["demo_cmd"]
         demo_cmd = re.sub(r'CARGO_TARGET_DIR=\S+\s*', '', demo_cmd)
@@ -81,7 +84,11 @@ def main():
         if rc != 0:
             res["error"] = "cannot revert patch: " + o[-1000:]
             return res
-        rc2, o2 = sh(demo_cmd, cwd=wt, env=env, timeout=3600)
+        for _try in range(3):   # port 3000 may be busy with a sibling's test
+            rc2, o2 = sh(demo_cmd, cwd=wt, env=env, timeout=3600)
+            if rc2 == 0:
+                break
+            time.sleep(20)
         open(f"{out}/confirm_demo_without.log", "w").write(o2)
         res["demo_without_change_rc"] = rc2
         res["demo_cmd_used"] = demo_cmd
